@@ -811,6 +811,31 @@ fn clear_clipped_contract(clip_kind: u8) {
     assert!(xf_eq(&xf_bits(&dt.transform), &xf_bits(&t)), "current transform restored");
     kani::cover!(f.n == 1);
 }
+// @ob id=K.clear_unclipped_nested props=C06 kind=bounded:surface=3x2 tier=quick timeout=600 fns=DrawTarget::clear
+// @+ desc="clear(c) with an empty clip stack and TWO open layers: the INNERMOST layer is filled with the colour; the outer layer and the surface are untouched"
+#[kani::proof]
+#[kani::unwind(9)]
+#[kani::stub(DrawTarget::fill, fill_rec)]
+fn k_clear_unclipped_nested() {
+    let mut dt = DrawTarget::new(CW, CH);
+    let surf0: [u32; 6] = kani::any();
+    dt.buf.copy_from_slice(&surf0);
+    let outer0: [u32; 6] = kani::any();
+    let inner0: [u32; 6] = kani::any();
+    dt.layer_stack.push(Layer { buf: outer0.to_vec(), opacity: 1., rect: surface_rect(), blend: BlendMode::SrcOver });
+    dt.layer_stack.push(Layer { buf: inner0.to_vec(), opacity: 1., rect: surface_rect(), blend: BlendMode::SrcOver });
+    let c = SolidSource { r: kani::any(), g: kani::any(), b: kani::any(), a: kani::any() };
+    comp_reset();
+    dt.clear(c);
+    let mut i = 0;
+    while i < 6 {
+        assert!(unsafe { FILL.n } == 1 || dt.layer_stack[1].buf[i] == c.to_u32(), "clear targets the innermost open layer");
+        assert!(dt.layer_stack[0].buf[i] == outer0[i], "the outer layer is untouched");
+        assert!(dt.buf[i] == surf0[i], "the surface is untouched");
+        i += 1;
+    }
+    kani::cover!(true);
+}
 // @ob id=K.clear_clipped props=C03,C05,C06,C11,C14 kind=bounded:surface=3x2 tier=quick timeout=600 fns=DrawTarget::clear
 // @+ desc="clear(c) under a rectangular clip (symbolic rect): either exactly one fill of the rectangle (0,0,width,height) with Source::Solid(c), blend Src, alpha 1, under the identity transform (so it goes through the clip and layer selection of composite) and no direct write, or a direct write of exactly the clip rectangle's pixels; the current transform is restored bit for bit"
 #[kani::proof]
@@ -1109,9 +1134,14 @@ fn k_fill_driver() {
 
 use crate::blitter::verif_kani::{super_blitter_sym, COV};
 fn push_clip_driver(with_clip: u8) {
-    let mut dt = wf_target_sym(with_clip);
+    let mut dt = wf_target_sym(if with_clip == 3 { 2 } else { with_clip });
+    if with_clip == 3 {
+        // a second path clip on top: the entry that counts is the TOP one
+        let r = dt.clip_stack[0].rect;
+        dt.clip_stack.push(Clip { rect: r, mask: Some(any_mask_bytes()) });
+    }
     let old_bounds = dt.clip_bounds();
-    let old_mask: Option<Vec<u8>> = if with_clip == 2 { dt.clip_stack[0].mask.clone() } else { None };
+    let old_mask: Option<Vec<u8>> = if with_clip >= 2 { dt.clip_stack.last().unwrap().mask.clone() } else { None };
     let cov: [u8; 7] = kani::any();
     unsafe { DRV_N = 0; COV = cov; }
     let path = Path { ops: Vec::new(), winding: Winding::EvenOdd };
@@ -1119,7 +1149,7 @@ fn push_clip_driver(with_clip: u8) {
     let n = unsafe { DRV_N };
     let d = unsafe { DRV };
     assert!(n == 3 && d[0] == 1 && d[1] == 3 && d[2] == 5, "apply_path, rasterize(path winding), reset last");
-    assert!(dt.clip_stack.len() == (if with_clip > 0 { 2 } else { 1 }), "one entry pushed");
+    assert!(dt.clip_stack.len() == (if with_clip == 3 { 3 } else if with_clip > 0 { 2 } else { 1 }), "one entry pushed");
     let top = dt.clip_stack.last().unwrap();
     assert!(top.rect == old_bounds, "clip bounds kept");
     match &top.mask {
@@ -1163,6 +1193,15 @@ fn k_push_clip_driver_1() { push_clip_driver(1); }
 #[kani::stub(Rasterizer::reset, reset_rec)]
 #[kani::stub(MaskSuperBlitter::new, super_blitter_sym)]
 fn k_push_clip_driver_2() { push_clip_driver(2); }
+// @ob id=K.push_clip_driver_3 props=C05 kind=bounded:surface=3x2 tier=quick timeout=900 fns=DrawTarget::push_clip
+// @+ desc="push_clip(path) on a stack of TWO path clips: the new mask is the rasterised coverage times the mask of the TOP entry (which already is the product of everything below), not of any other entry; depth-3 nesting keeps every clip in force"
+#[kani::proof]
+#[kani::unwind(10)]
+#[kani::stub(DrawTarget::apply_path, apply_path_rec)]
+#[kani::stub(Rasterizer::rasterize, rasterize_rec)]
+#[kani::stub(Rasterizer::reset, reset_rec)]
+#[kani::stub(MaskSuperBlitter::new, super_blitter_sym)]
+fn k_push_clip_driver_3() { push_clip_driver(3); }
 
 // ------------------------------------------------------------------ surface to surface (C15)
 pub static mut CS_LOG: [(usize, usize, usize, usize); 4] = [(0, 0, 0, 0); 4]; // src offset (words), src len, dst offset (words), dst len
@@ -1585,5 +1624,27 @@ fn k_fill_rect_general_xf() { fill_rect_general(2); fill_rect_general(3); }
 fn k_contract_to_u32() {
     let c = SolidSource { r: kani::any(), g: kani::any(), b: kani::any(), a: kani::any() };
     c.to_u32();
+    kani::cover!(true);
+}
+
+
+
+// ------------------------------------------------------------------ dash offset normalisation (C07 #7)
+fn dash_offset_case(arr: &[f32], period: f32) {
+    let path = Path { ops: Vec::new(), winding: Winding::NonZero };
+    let off: f32 = kani::any();
+    // any offset that survives `offset % period` and the negative fix-up: 0 <= offset < period (the % itself is fmod)
+    kani::assume(off.is_finite() && off > -period && off < period);
+    let r = dash_path(&path, arr, off);
+    assert!(r.ops.len() == 0, "an empty path dashes to an empty path");
+}
+// @ob id=K.dash_offset_loop props=C07 kind=bounded:3-dash-arrays tier=quick timeout=900 fns=dash_path
+// @+ desc="dash_path's offset normalisation on dash arrays [5], [4,2,3] and [1,0,2,3] with every finite offset within one period of either sign: the loop that advances the dash state by the offset never indexes outside the dash array (odd-length arrays wrap around: their period is two passes) and terminates within two passes"
+#[kani::proof]
+#[kani::unwind(10)]
+fn k_dash_offset_loop() {
+    dash_offset_case(&[5.], 10.);
+    dash_offset_case(&[4., 2., 3.], 18.);
+    dash_offset_case(&[1., 0., 2., 3.], 6.);
     kani::cover!(true);
 }
